@@ -2,8 +2,11 @@
 use crate::engine::{PropSpec, Tier};
 
 pub mod bdd;
+pub mod compile;
 pub mod counts;
+pub mod history;
 pub mod nogood;
+pub mod parser;
 pub mod sem;
 pub mod stream;
 
@@ -16,7 +19,12 @@ pub fn spec(id: &str, tier: Tier) -> Option<PropSpec> {
         "C05" => sem::c05(tier),
         "C06" => bdd::c06(tier),
         "C07" => bdd::c07(tier),
+        "C08" => parser::c08(tier),
+        "C09" => compile::c09(tier),
+        "C10" => compile::c10(tier),
+        "C11" => history::c11(tier),
         "C13" => counts::c13(tier),
+        "C14" => history::c14(tier),
         "C18" => nogood::c18(tier),
         "C19" => stream::c19(tier),
         "C20" => stream::c20(tier),
